@@ -12,7 +12,7 @@ FOCUS = {
     "C01": ["treat", "removal", "movement", "sei"], "C02": ["removal", "overpop", "movement", "mortality", "soil"],
     "C03": ["treat", "sei", "removal"], "C04": ["soil", "multi", "det", None], "C05": ["sei"],
     "C09": [None, "det", "removal"], "C10": ["treat"], "C11": ["mortality", "multi"],
-    "C12": ["removal", "det"], "C16": ["multi"], "C17": ["overpop", "movement"],
+    "C12": ["removal", "det"], "C16": ["multi", "multi", "oversuit"], "C17": ["overpop", "movement"],
 }
 OWN_STREAM = set(FOCUS)
 
@@ -91,6 +91,14 @@ class Scenario:
                     continue   # the raster entry point takes no treatments
                 self.treats.append(dict(pest=days != 0, start=st, end=en, app=t[6], coef=[Q(x) for x in t[7:7 + self.ncell]]))
 
+    def treats_at(self, step):
+        """The treatments still registered at `step`: `clearafter K S` drops, before step
+        K, every treatment dated after step S (Treatments::clear_after_step)."""
+        ca = self.kv.get("clearafter")
+        if ca and self.entry == "pools" and step >= int(ca[0]):
+            return [t for t in self.treats if t["start"] <= int(ca[1])]
+        return self.treats
+
     def step_of(self, d):
         for i, (a, b) in enumerate(self.steps):
             if cal.dn(a) <= cal.dn(d) <= cal.dn(b):
@@ -141,7 +149,7 @@ def mon_C01(ctx, k, sc, tr, stats):
             import copy
             work = copy.deepcopy(prev["hosts"])
             for h in range(len(work)):
-                for t in sc.treats:
+                for t in sc.treats_at(step):
                     if t["start"] == step and not t["pest"]:
                         for (r, c) in (prev["suit"][h] if prev["suit"] else []):
                             i = r * sc.cols + c
@@ -244,6 +252,14 @@ def mon_C03(ctx, k, sc, tr, stats):
                     return
                 if not overpop_ran and cohorts_ok.get((h, i), True) and c["I"] != sum(c["M"]):
                     cohorts_ok[(h, i)] = False
+                    if tag == "movement" and any(p["I"] != sum(p["M"]) for p in prev["hosts"][h]):
+                        # host movement draws infected hosts and cohort members separately: it
+                        # keeps infected = sum of cohorts only when the SOURCE cell had it
+                        # (MoveProps.v); a source already inconsistent (reported when it became
+                        # so) carries the mismatch into the destination - a consequence, not a
+                        # second violation
+                        stats["cohort_mismatch_moved"] = stats.get("cohort_mismatch_moved", 0) + 1
+                        continue
                     ctx.violation("C03.infected_eq_mortality_cohorts.%s" % tag,
                                   "step %d after %s: host %d cell %d infected %d != sum of mortality cohorts %s" % (step, tag, h, i, c["I"], c["M"]), sc.text)
     # mortality must never fail on a state the model itself produced
@@ -396,6 +412,20 @@ def mon_C09(ctx, k, sc, tr, stats):
                 ctx.violation("C09.measurement_changes_state.%s" % t, "step %d: %s changed the host rasters" % (step, t), sc.text)
                 return
             prev = st
+    # soil ageing is the first action of EVERY step (not only of spread steps) and no
+    # action other than ageing, generation (gain) and dispersal (release) touches the soil
+    if err:
+        return
+    for prev, step, tag, idx, st in iter_pairs(sc, tr):
+        if not prev["soil"] or tag == "end":
+            continue
+        if tag == "soil_next_step":
+            if st["soil"] != [cs[1:] + [0] for cs in prev["soil"]]:
+                ctx.violation("C09.soil_ageing_every_step", "step %d: the soil-ageing slot of the step left the soil cohorts %s -> %s (must drop the oldest cohort and open an empty one)" % (step, prev["soil"], st["soil"]), sc.text)
+                return
+        elif tag not in ("generate", "spread", "disperse") and st["soil"] != prev["soil"]:
+            ctx.violation("C09.soil_changed_by.%s" % tag, "step %d: %s changed the soil cohorts %s -> %s" % (step, tag, prev["soil"], st["soil"]), sc.text)
+            return
 
 
 # ------------------------------------------------------------------ C10
@@ -440,7 +470,7 @@ def mon_C10(ctx, k, sc, tr, stats):
         work = copy.deepcopy(prev["hosts"])
         for h in range(len(work)):
             suit = prev["suit"][h]
-            for t in sc.treats:
+            for t in sc.treats_at(step):
                 if t["start"] == step:
                     stats["applications"] = stats.get("applications", 0) + 1
                     for (r, c) in suit:
@@ -455,7 +485,7 @@ def mon_C10(ctx, k, sc, tr, stats):
         for h in range(len(work)):
             for i in range(sc.ncell):
                 if not cells_equal(work[h][i], st["hosts"][h][i]):
-                    kinds = sorted(set(("pesticide" if t["pest"] else "removal") for t in sc.treats if t["start"] == step or (t["pest"] and t["end"] == step))) or ["none_scheduled"]
+                    kinds = sorted(set(("pesticide" if t["pest"] else "removal") for t in sc.treats_at(step) if t["start"] == step or (t["pest"] and t["end"] == step))) or ["none_scheduled"]
                     ctx.violation("C10.share.%s" % "+".join(kinds),
                                   "step %d host %d cell %d: after treatments %s, documented %s (before: %s)" %
                                   (step, h, i, fmt_cell(st["hosts"][h][i]), fmt_cell(work[h][i]), fmt_cell(prev["hosts"][h][i])), sc.text)
@@ -827,6 +857,7 @@ def mon_C16(ctx, k, sc, tr, stats):
     if sc.nhosts < 1:
         return
     mon_C04(ctx, k, sc, tr, stats, check_competency=True)
+    mon_C16_oversuitable(ctx, k, sc, tr, stats)
     # a landing disperser goes to at most one host, which must have a susceptible individual:
     # covered by C04.establish_reclassifies per host; here: pests split among hosts
     for prev, step, tag, idx, st in iter_pairs(sc, tr):
@@ -837,6 +868,31 @@ def mon_C16(ctx, k, sc, tr, stats):
                     if c["I"] < 0 or c["S"] < 0:
                         ctx.violation("C16.split_exceeds_availability", "step %d host %d cell %d: %s -> %s" % (step, h, i, fmt_cell(p), fmt_cell(c)), sc.text)
                         return
+
+
+def mon_C16_oversuitable(ctx, k, sc, tr, stats):
+    """Input for which the combined suitability of a cell exceeds one is rejected (both
+    arrival behaviours): if a disperser established in a cell during a dispersal action,
+    the combined suitability of that cell at that moment was at least the one computed
+    from the susceptibles left afterwards; if even that exceeds one, the landing had to
+    end in std::invalid_argument instead."""
+    if sc.nhosts < 2 or not sc.totpop:
+        return
+    for prev, step, tag, idx, st in iter_pairs(sc, tr):
+        if tag != "spread":
+            continue
+        weather = sc.weathers[step % len(sc.weathers)] if sc.use["weather"] and sc.weathers else None
+        for i in range(sc.ncell):
+            if sc.totpop[i] <= 0:
+                continue
+            took = sum(prev["hosts"][h][i]["S"] - st["hosts"][h][i]["S"] for h in range(sc.nhosts))
+            total = sum(Fraction(st["hosts"][h][i]["S"], sc.totpop[i]) * (sc.pht[h][0] if h in sc.pht else 1) * (weather[i] if weather else 1)
+                        for h in range(sc.nhosts))
+            if total > 1:
+                stats["oversuitable_cells_seen"] = stats.get("oversuitable_cells_seen", 0) + 1
+                if took > 0:
+                    ctx.violation("C16.oversuitable_accepted", "step %d cell %d: %d disperser(s) established although the combined suitability of the cell is %s > 1 (population %d)" % (step, i, took, total, sc.totpop[i]), sc.text)
+                    return
 
 
 MONITORS.update({"C04": mon_C04, "C05": mon_C05, "C09": mon_C09, "C10": mon_C10, "C11": mon_C11, "C12": mon_C12, "C16": mon_C16, "C17": mon_C17})
